@@ -152,7 +152,9 @@ def run(chk: vlib.Check) -> None:
     for f in fails:
         c, r = by_id[f["id"]], rec_by_id[f["id"]]
         sig = c28_signature(f, r, c["literal"])
-        groups.setdefault(sig, []).append((len(c["literal"]) + len(c["file_dir"]), f, c, r))
+        # prefer an example that shows this cause only (the customary spelling unless the cause is the spelling)
+        plain = 0 if (c["sch"] in ("canon", "extra") or "not-transformed" in sig or "swallows" in sig) else 1
+        groups.setdefault(sig, []).append(((plain, len(c["literal"]) + len(c["file_dir"])), f, c, r))
     for sig, items in sorted(groups.items()):
         items.sort(key=lambda x: x[0])
         _, f, c, r = items[0]
